@@ -531,7 +531,7 @@ def handleStar (cfg : Cfg) (ps : PS) (it : It) (cur : List Item) : PS × It × L
     let ps := ps.resetDirTrack
     match cur with
     | last :: before =>
-      if last.isDiv win then (ps.setStartDir, it, cur)
+      if last.isDiv win then (ps.setStartDir, consumePathSep cfg it, cur)
       else
         let cur := if last.isEmpty then .re globstar :: before
                    else .re globstar :: .re (Frag.needSep win) :: before
